@@ -140,6 +140,7 @@ func (c *Ctx) writerCriticalSpan() {
 	n := 0
 	var reserve, commit, write *ssa.Call
 	var encodes []*ssa.Call
+	chains := map[*ssa.Call][]ssa.CallInstruction{}
 	el := c.entryLocks()
 	isRingOp := func(call ssa.CallInstruction) bool {
 		for _, m := range []string{"WriteWait", "WriteCommit", "Write"} {
@@ -155,6 +156,7 @@ func (c *Ctx) writerCriticalSpan() {
 		if !ok {
 			continue
 		}
+		chains[cl] = h.Chain
 		what := "Encode"
 		for _, m := range []string{"WriteWait", "WriteCommit", "Write"} {
 			if ir.IsMethod(cl.Common(), pkgService, "buffer", m) {
@@ -216,7 +218,12 @@ func (c *Ctx) writerCriticalSpan() {
 				if sl, ok := dst.(*ssa.Slice); ok {
 					dst = sl.X
 				}
-				if ex2, ok := ir.SeeThrough(dst).(*ssa.Extract); ok && ex2.Tuple == ssa.Value(reserve) && ex2.Index == 0 {
+				// the destination may be a parameter of a helper that received the reserved slice
+				dv, _ := resolveChain(dst, chains[commit])
+				if sl, ok := dv.(*ssa.Slice); ok {
+					dv = ir.SeeThrough(sl.X)
+				}
+				if ex2, ok := dv.(*ssa.Extract); ok && ex2.Tuple == ssa.Value(reserve) && ex2.Index == 0 {
 					okc = true
 				}
 			}
